@@ -364,7 +364,7 @@ def r5_overlap(m):
 
 def run(m, tier):
     from rules import engine_tables
-    results = [r1_table(m), r2_engine(m), r3_regex(m, tier), r4_exponent(m), r5_overlap(m), engine_tables.unary_rule(m, "C03.R6")]
+    results = [r1_table(m), r2_engine(m), r3_regex(m, tier), r4_exponent(m), r5_overlap(m), engine_tables.unary_rule(m, "C03.R6"), engine_tables.pattern_split_rule(m, "C03.R7")]
     expl = ("Decides structural clauses of C03: the 12-level expression table extracted from the match methods equals the standard's "
             "(operator, operand classes, split side, fall-through; Parenthesis wraps Expr under Primary); the generic binary engine, "
             "specialised for right=True/False, reaches a match only after the rightmost/leftmost split and builds each operand from its "
